@@ -8,8 +8,8 @@ import (
 	"testing"
 
 	nri "github.com/containerd/nri/pkg/api"
-	"pgregory.net/rapid"
 	v1 "k8s.io/api/core/v1"
+	"pgregory.net/rapid"
 
 	"github.com/containers/nri-plugins/pkg/zzverif/vfkit"
 )
